@@ -47,6 +47,9 @@ def parse (t : List String) : Option Op :=
 
 def stepLine (s : St) (t : List String) : St × String :=
   match t with
+  | ["reloc"] =>
+      -- C14: relocating the memory block is invisible: the model state has no addresses
+      (s, "ok")
   | ["new", _, cap] => (init (nat! cap), "ok")
   | _ =>
     match parse t with
